@@ -8,6 +8,7 @@
 -/
 import Proofs.WFOps
 import Proofs.Foliate
+import Proofs.CircuitBox
 
 namespace DV.C01
 open DV
@@ -89,6 +90,42 @@ theorem cups_wf (l r : Ty) (d : Diagram) (h : Diagram.cups l r = .ok d) : d.WF :
 
 theorem caps_wf (l r : Ty) (d : Diagram) (h : Diagram.caps l r = .ok d) : d.WF :=
   Diagram.caps_wf h
+
+/-! ### Circuits: the class-specific box daggers (quantum/circuit.py, quantum/gates.py)
+
+The dagger of a diagram splices `box.dagger()` of each box's own class into the reversed layers
+without re-scanning, so it is well-typed only because every class's dagger exchanges dom and cod. -/
+
+/-- Every box class of quantum.circuit / quantum.gates (Measure and Encode with all their flags,
+    Discard, MixedState on any type, Digits/Bits, Ket, Bra, Copy, Match, Swap, quantum, controlled,
+    rotation and classical gates, scalars, plain boxes): its own `dagger()` goes the other way. -/
+theorem circuit_box_dagger_exchanges (b : CB.CBox) :
+    b.dagger.dom = b.cod ∧ b.dagger.cod = b.dom := ⟨CB.CBox.dagger_dom b, CB.CBox.dagger_cod b⟩
+
+/-- The dagger of a well-typed circuit, computed as the library does (reversed layers, each box
+    replaced by its class's own dagger, nothing re-scanned), is well-typed and goes `cod → dom`. -/
+theorem circuit_dagger_wf (d : Diagram) (ls : List CB.CLayer) (hd : d.WF)
+    (hl : d.layers.boxes = ls.map CB.CLayer.toLayer) :
+    (CB.circuitDagger d ls).WF ∧ (CB.circuitDagger d ls).dom = d.cod ∧
+      (CB.circuitDagger d ls).cod = d.dom :=
+  ⟨CB.circuitDagger_wf hd hl, rfl, rfl⟩
+
+/-- … and on everything C01 reads (types of the boxes, left and right wires of every layer) it is
+    the generic dagger of the model, which is what the shape correspondence of the semantic
+    classes compares against. -/
+theorem circuit_dagger_shape (ls : List CB.CLayer) :
+    ((CB.cdagger ls).map CB.CLayer.toLayer).map (fun l => (l.left, l.box.dom, l.box.cod, l.right)) =
+    ((ls.map CB.CLayer.toLayer).reverse.map Layer.dag).map
+      (fun l => (l.left, l.box.dom, l.box.cod, l.right)) := CB.cdagger_shape ls
+
+/-! Non-vacuity for the circuit boxes: the flags matter.  `Encode(1, reset_bits=True)` goes
+    `bit → qubit @ bit`; its dagger is `Measure(1, override_bits=True) : qubit @ bit → bit`, and a
+    `Measure(1)` without the flag would not find its domain there. -/
+example : (CB.CBox.encode 1 true true).dagger = .measure 1 true true := rfl
+example : (CB.CBox.encode 1 true true).cod = [CB.qubit, CB.bit] := by decide
+example : (CB.CBox.measure 1 true false).dom ≠ (CB.CBox.encode 1 true true).cod := by decide
+example : (CB.CBox.mixedState [CB.bit]).dagger.dom = [CB.bit] := by decide
+example : (CB.CBox.discard (CB.pow CB.qubit 1)).dom ≠ (CB.CBox.mixedState [CB.bit]).cod := by decide
 
 /-! Non-vacuity: a concrete three-box diagram with a scalar box and an effect evaluates, so the
     hypotheses above are met by a non-trivial value; and an out-of-range offset is refused. -/
